@@ -19,7 +19,7 @@ inductive Err where
   | unsupportedExpr          -- UnsupportedExpressionError (no handler for the node type)
   | foreign                  -- ValueError: invalid foreign object
   | noClaim                  -- outside the exact fragment: the model makes no statement
-  deriving Repr, BEq, DecidableEq, Inhabited
+  deriving Repr, DecidableEq, Inhabited
 
 inductive Value where
   | int (n : Int)
@@ -269,11 +269,15 @@ def Value.lt (a b : Value) : Except Err Bool := do
   | .bool r => pure r
   | _ => throw .noClaim
 
+/-- is `x` strictly better than the running optimum `m`? -/
+def Value.better (isMin : Bool) (x m : Value) : Except Err Bool :=
+  if isMin then Value.lt x m else Value.lt m x
+
 /-- `min(iterable)` / `max(iterable)` after the elements have been computed. -/
 def minFold (isMin : Bool) : Value → List Value → R
   | m, [] => pure m
   | m, x :: xs => do
-      let better ← if isMin then Value.lt x m else Value.lt m x
+      let better ← Value.better isMin x m
       minFold isMin (if better then x else m) xs
 
 def Value.minmax (isMin : Bool) : List Value → R
